@@ -110,8 +110,27 @@ UnivPairHeaps ==
       pairs == {<<A(x), B(y)>> : x \in mats, y \in mats}
   IN {H2b(pr[1], pr[2], UnivBuilds[1 + (UnivWeight(pr[1]) % Len(UnivBuilds))],
           UnivBuilds[1 + (UnivWeight(pr[2]) % Len(UnivBuilds))], "univpair") : pr \in Sample(pairs, UnivCfg.k, UnivCfg.salt)}
-MCHeaps == IF IOEnv.GEN_HEAPS = "univ" THEN UnivHeaps
-           ELSE IF IOEnv.GEN_HEAPS = "univpair" THEN UnivPairHeaps ELSE HeapSets[IOEnv.GEN_HEAPS]
+\* pairs for concat: the second table on disjoint observation IDs and permuted, partly missing sample IDs
+UnivCatHeaps ==
+  LET mats == [1..2 -> [1..2 -> 0..(UnivCfg.vals - 1)]]
+      md(ids, v) == MdRows([k \in 1..Len(ids) |-> <<S1("k1", v)>>])
+      A(mm) == Mk(<<"o1", "o2">>, <<"s1", "s2">>, mm, IF mm[1][1] = 0 THEN NoMd ELSE md(<<"o1", "o2">>, "x"), NoMd, "OTU table")
+      B(mm) == Mk(<<"o3", "o4">>, <<"s3", "s1">>, mm, IF mm[2][2] = 0 THEN NoMd ELSE md(<<"o3", "o4">>, "y"), NoMd, "")
+      pairs == {<<A(x), B(y)>> : x \in mats, y \in mats}
+  IN {H2b(pr[1], pr[2], UnivBuilds[1 + (UnivWeight(pr[1]) % Len(UnivBuilds))],
+          UnivBuilds[1 + (UnivWeight(pr[2]) % Len(UnivBuilds))], "univcat") : pr \in Sample(pairs, UnivCfg.k, UnivCfg.salt)}
+\* pairs for equality: two matrices on the SAME IDs, different hidden layouts: equal iff the matrices are equal
+UnivEqHeaps ==
+  LET mats == [1..2 -> [1..2 -> 0..(UnivCfg.vals - 1)]]
+      A(mm) == Mk(<<"o1", "o2">>, <<"s1", "s2">>, mm, NoMd, NoMd, "OTU table")
+      pairs == {<<A(x), A(y)>> : x \in mats, y \in mats}
+  IN {H2b(pr[1], pr[2], UnivBuilds[1 + (UnivWeight(pr[1]) % Len(UnivBuilds))],
+          UnivBuilds[1 + ((UnivWeight(pr[2]) + 2) % Len(UnivBuilds))], "univeq") : pr \in Sample(pairs, UnivCfg.k, UnivCfg.salt)}
+MCHeaps == CASE IOEnv.GEN_HEAPS = "univ" -> UnivHeaps
+             [] IOEnv.GEN_HEAPS = "univpair" -> UnivPairHeaps
+             [] IOEnv.GEN_HEAPS = "univcat" -> UnivCatHeaps
+             [] IOEnv.GEN_HEAPS = "univeq" -> UnivEqHeaps
+             [] OTHER -> HeapSets[IOEnv.GEN_HEAPS]
 
 PhaseSpec == JsonDeserialize(IOEnv.GEN_PHASES)
 MCPhases == [i \in 1..Len(PhaseSpec) |->
